@@ -10,6 +10,7 @@ package c01
 import (
 	"strconv"
 	"strings"
+	"unicode"
 	"unicode/utf8"
 )
 
@@ -171,7 +172,7 @@ func domCSVTrim(s stream) string {
 			return false
 		}
 		r, _ := utf8.DecodeRuneInString(c)
-		return r == ' ' || r == '\t' || r == '\n' || r == '\r' || r == 0x85 || r == 0xA0
+		return unicode.IsSpace(r) // space, TAB, LF, VT, FF, CR, U+0085, U+00A0 ...: what the reader's trim removes
 	}
 	for i, r := range s {
 		for _, f := range r {
